@@ -483,6 +483,7 @@ type LoopSpec struct {
 	Modifies   []Expr
 	Decreases  Expr
 	Preserves  []Expr
+	Exits      []*Clause // asserted on every edge that leaves the loop without returning
 }
 
 type CallSiteSpec struct {
@@ -523,6 +524,7 @@ type FuncSpec struct {
 	FreshRet  bool
 	Extensional bool // fixed-size array values get an extensionality axiom in this function's VCs
 	Opaque    []string // callee names to treat as opaque (havoc per their modset) even if they have bodies
+	Hide      []string // spec functions kept uninterpreted in this function's VCs
 }
 
 type GhostVar struct {
@@ -820,6 +822,9 @@ func (db *SpecDB) LoadSpecFile(path, pkgPath string) error {
 				cur.Extensional = true
 			case "opaque":
 				cur.Opaque = append(cur.Opaque, strings.Fields(strings.ReplaceAll(rest, ",", " "))...)
+			case "hide":
+				// hide f g: these spec functions stay uninterpreted in this function's VCs (their definitions are not needed here)
+				cur.Hide = append(cur.Hide, strings.Fields(strings.ReplaceAll(rest, ",", " "))...)
 			case "loop":
 				ks, r2 := splitWord(rest)
 				k, err := strconv.Atoi(ks)
@@ -857,6 +862,17 @@ func (db *SpecDB) LoadSpecFile(path, pkgPath string) error {
 						}
 						ls.Preserves = append(ls.Preserves, e)
 					}
+				case "exit":
+					// loop k exit assert <expr>: holds whenever the loop is left normally (not by a return inside it)
+					w4, r4 := splitWord(r3)
+					if w4 != "assert" {
+						return fail(i, "expected 'loop k exit assert <expr>'")
+					}
+					e, err := parse(r4)
+					if err != nil {
+						return err
+					}
+					ls.Exits = append(ls.Exits, &Clause{Kind: "loop.exit", E: e, Src: r4, Idx: len(ls.Exits) + 1})
 				case "decreases":
 					e, err := parse(r3)
 					if err != nil {
